@@ -1015,7 +1015,8 @@ func runL4(args []string) {
 	rep.Rule = "scripted operations: statement with/without outputs x DB/TX x cached/uncached x context kind x result size 0-3 x " +
 		"faults (prepare, exec/query, fetch at any position, rows close, unconvertible row) x retrieval method (Get/GetAll/Run/Iter with a random call sequence) " +
 		"x transaction end placement and finisher sequences (sequential, concurrent, after the Begin context was cancelled) x preliminary runs (live / cancelled context, same or other argument shape) " +
-		"x destination forms (struct, map, spare capacity with stale data, Outcome) x fewer columns than outputs x further result sets; one case in 25 is a pair of goroutines with two contexts on one " +
+		"x destination forms (struct, struct three levels deep, map (NULL into a reused map), map of RawBytes under cancellation, nil slice, spare capacity with stale data, Outcome) x fewer columns than outputs x further result sets " +
+		"x injected errors wrapping sentinel errors x done contexts by cancellation, expired deadline or explicit cause x Begin options (nil, empty, ReadOnly); one case in 25 is a pair of goroutines with two contexts on one " +
 		"uncached statement (the first held inside the driver's Prepare); non-trivial = at least one driver event or a returned error; distinct by hash of the case"
 	r := rng.New(*seed)
 	dist := map[string]int{}
